@@ -124,18 +124,16 @@ Qed.
 Lemma of_tx_json : forall t, of_tx c (Some (tx_json c t)) = Ok (norm_tx c t).
 Proof.
   intros [ps md ts rf id rv]. unfold tx_json, of_tx, norm_tx. cbn [t_postings t_meta t_time t_ref t_id t_reverted].
-  destruct (String.eqb rf EmptyString) eqn:Hrf.
-  - apply String.eqb_eq in Hrf. subst rf.
-    cbn [app]. change (get k_postings _) with (Some (JArr (map posting_json ps))).
-    cbv beta iota. rewrite of_postings_json. cbn [bind].
-    change (get k_metadata _) with (Some (meta_json md)). rewrite of_meta_json. cbn [bind].
-    unfold time_field. change (get k_timestamp _) with (Some (JStr (tfmt c ts))). cbv beta iota.
-    rewrite parse_fmt. cbn [bind]. reflexivity.
-  - cbn [app]. change (get k_postings _) with (Some (JArr (map posting_json ps))).
-    cbv beta iota. rewrite of_postings_json. cbn [bind].
-    change (get k_metadata _) with (Some (meta_json md)). rewrite of_meta_json. cbn [bind].
-    unfold time_field. change (get k_timestamp _) with (Some (JStr (tfmt c ts))). cbv beta iota.
-    rewrite parse_fmt. cbn [bind]. reflexivity.
+  destruct (String.eqb rf EmptyString) eqn:Hrf; [apply String.eqb_eq in Hrf; subst rf|];
+    cbn [app];
+    (destruct ps as [ps|];
+     [ change (get k_postings _) with (Some (JArr (map posting_json ps))); cbv beta iota;
+       rewrite of_postings_json
+     | change (get k_postings _) with (Some JNull); cbv beta iota ]);
+    cbn [bind];
+    change (get k_metadata _) with (Some (meta_json md)); rewrite of_meta_json; cbn [bind];
+    unfold time_field; change (get k_timestamp _) with (Some (JStr (tfmt c ts))); cbv beta iota;
+    rewrite parse_fmt; cbn [bind]; reflexivity.
 Qed.
 
 Lemma tx_json_norm : forall t, tx_json c (norm_tx c t) = tx_json c t.
@@ -281,16 +279,21 @@ Definition del_entry (tg : target) : entry text_codec :=
 Definition setmeta_entry (tg : target) : entry text_codec :=
   chain_log text_codec None {| l_payload := PSetMeta text_codec tg (Some []); l_date := sample_time; l_ik := EmptyString |}.
 
+(* stated through booleans so that vm_compute evaluates the decoders and never has to normalise the codec itself *)
 Lemma legacy_delmeta_panics :
-  of_json text_codec legacy (to_json text_codec (del_entry (TAccount "acc"%string))) = Panic /\
-  of_json text_codec legacy (to_json text_codec (del_entry (TTx 1))) = Panic /\
-  of_row text_codec legacy (to_row text_codec (del_entry (TAccount "acc"%string))) = Panic.
+  is_panic (of_json text_codec legacy (to_json text_codec (del_entry (TAccount "acc"%string)))) = true /\
+  is_panic (of_json text_codec legacy (to_json text_codec (del_entry (TTx 1)))) = true /\
+  is_panic (of_row text_codec legacy (to_row text_codec (del_entry (TAccount "acc"%string)))) = true /\
+  res_eqb entry_eqb (of_json text_codec fixed (to_json text_codec (del_entry (TTx 1)))) (Ok (del_entry (TTx 1))) = true.
 Proof. vm_compute. auto. Qed.
 
 Lemma legacy_bigid_fails :
-  of_json text_codec legacy (to_json text_codec (setmeta_entry (TTx two64))) = Err /\
-  of_row text_codec legacy (to_row text_codec (setmeta_entry (TTx two64))) = Panic /\
-  of_json text_codec legacy (to_json text_codec (setmeta_entry (TTx (two64 - 1)))) = Ok (setmeta_entry (TTx (two64 - 1))).
+  is_err (of_json text_codec legacy (to_json text_codec (setmeta_entry (TTx two64)))) = true /\
+  is_panic (of_row text_codec legacy (to_row text_codec (setmeta_entry (TTx two64)))) = true /\
+  res_eqb entry_eqb (of_json text_codec legacy (to_json text_codec (setmeta_entry (TTx (two64 - 1)))))
+                    (Ok (setmeta_entry (TTx (two64 - 1)))) = true /\
+  res_eqb entry_eqb (of_json text_codec fixed (to_json text_codec (setmeta_entry (TTx two64))))
+                    (Ok (setmeta_entry (TTx two64))) = true.
 Proof. vm_compute. auto. Qed.
 
 Lemma text_codec_ok : codec_ok text_codec.
